@@ -252,6 +252,15 @@ def invalid_configs():
     c = line_sbmbk(pin=2); c.update(expect="invalid", family="invalid:const-in-out-of-range", why="out-of-range constant edge index"); out.append(c)
     c = src_fan_out(pout=5); c.update(expect="invalid", family="invalid:source-const-out-of-range", why="out-of-range constant edge index"); out.append(c)
     c = line_sbmbk(pout={"script": [0, 7]}, iat=(2, 2, 2)); c.update(expect="invalid", family="invalid:script-out-of-range", why="out-of-range index from a callable"); out.append(c)
+    # an index outside the range answered by a callable / generator is rejected, not wrapped: NEGATIVE answers on every
+    # node type and side (Python would index from the end)
+    c = src_fan_out(pout={"script": [0, 1, 0, -1]}); c.update(expect="invalid", family="invalid:source-script-negative", why="negative index from a callable"); out.append(c)
+    c = src_fan_out(pout={"script": [0, -2]}, blocking=False); c.update(expect="invalid", family="invalid:source-script-negative", why="negative index from a callable"); out.append(c)
+    c = fan_out(pout={"script": [1, -1]}); c.update(expect="invalid", family="invalid:machine-out-script-negative", why="negative index from a callable"); out.append(c)
+    c = fan_in(pin={"script": [0, -1]}); c.update(expect="invalid", family="invalid:machine-in-script-negative", why="negative index from a callable"); out.append(c)
+    c = comb_split(spout={"script": [0, -1]}); c.update(expect="invalid", family="invalid:splitter-out-script-negative", why="negative index from a callable"); out.append(c)
+    c = src_fan_out(pout=-1); c.update(expect="invalid", family="invalid:source-const-negative", why="negative constant edge index"); out.append(c)
+    c = fan_out(pout=-1); c.update(expect="invalid", family="invalid:machine-const-negative", why="negative constant edge index"); out.append(c)
     return out
 
 
